@@ -12,7 +12,8 @@
 (*   OnChallenge     the honest prover's on_challenge -> create_challenge_response                            *)
 (*   OnResponse      on_challenge_response: pending cache popped, round guard, aggregate, completion / next   *)
 (*   ProvTimeout / PendTimeout   RequestCache time-outs (time itself is abstracted: any order is allowed)      *)
-(*   Lose            a datagram is lost; delivery may leave a copy in flight (duplication)                    *)
+(*   loss of a datagram = it is never delivered (nothing forces delivery); delivery may leave a copy in       *)
+(*   flight (duplication, `keep`)                                                                             *)
 (* Abstract layer: every round is a run of Attest.tla (instance AT(k): its aggregate / processed slots) and   *)
 (* the demands of Attest.tla are made of EVERY round, whatever the rounds before did and whatever is still in *)
 (* flight: the aggregate counts exactly the answers to the round's own challenges, each once (AggIsAnswers,   *)
@@ -29,7 +30,7 @@ EXTENDS Naturals, Sequences, FiniteSets, TLC
 CONSTANTS BitSpace,   \* hash bits in the exhaustive model (the trace spec takes the bits from the trace)
           Honest,     \* Attest.tla's switch; TRUE here
           Window,     \* challenges sent at once by on_received_attestation (10 in the code)
-          MaxRounds, MaxHon, MaxDup,   \* bounds of the exhaustive model
+          MaxRounds, MaxGen, MaxHon, MaxDup,   \* bounds of the exhaustive model
           CreditBy,   \* "object": the round the pending cache points to, if it still is the registered one
                       \* "hash"  : deviation
           Reset       \* FALSE: answers to challenges the round no longer waits for are not counted; TRUE: deviation
@@ -71,7 +72,7 @@ Verify == /\ reg = 0 /\ Len(rnd) < MaxRounds
 
 (* verify_attestation_values while a round is registered: request_cache.add refuses the new cache (its callback *)
 (* is lost), but the attestation is requested and received again; until then the round goes on                 *)
-Reverify == /\ reg # 0 /\ rnd[reg].st = "run" /\ ~rnd[reg].rx /\ rnd[reg].gen < MaxRounds
+Reverify == /\ reg # 0 /\ rnd[reg].st = "run" /\ ~rnd[reg].rx /\ rnd[reg].gen < MaxGen
             /\ rnd' = [rnd EXCEPT ![reg].rx = TRUE]
             /\ UNCHANGED <<bits, revealed, reg, pend, chal, resp, nh, dup>>
 
@@ -135,9 +136,6 @@ ProvTimeout == /\ reg # 0
                /\ UNCHANGED <<bits, revealed, pend, chal, resp, nh, dup>>
 PendTimeout(p) == /\ p \in pend /\ pend' = pend \ {p}
                   /\ UNCHANGED <<bits, revealed, reg, rnd, chal, resp, nh, dup>>
-Lose == /\ \/ \E x \in chal : chal' = chal \ {x} /\ UNCHANGED resp
-           \/ \E x \in resp : resp' = resp \ {x} /\ UNCHANGED chal
-        /\ UNCHANGED <<bits, revealed, reg, rnd, pend, nh, dup>>
 
 DoVerify      == Verify
 DoReverify    == Reverify
@@ -146,9 +144,7 @@ DoOnChallenge == \E x \in chal : \E r \in 0..2 : \E keep \in BOOLEAN : OnChallen
 DoOnResponse  == \E x \in resp : \E keep \in BOOLEAN : OnResponse(x, keep)
 DoProvTimeout == ProvTimeout
 DoPendTimeout == \E p \in pend : PendTimeout(p)
-DoLose        == Lose
 Next == DoVerify \/ DoReverify \/ DoReceived \/ DoOnChallenge \/ DoOnResponse \/ DoProvTimeout \/ DoPendTimeout
-        \/ DoLose
 Spec == Init /\ [][Next]_vars
 
 -----------------------------------------------------------------------------
